@@ -517,6 +517,15 @@ func instrRun(c *core.Ctx) {
 			for _, rd := range readersFor(f) {
 				do("scaled."+f, ReadCase{rd, data, fmt.Sprintf("%d cues", 1<<k)})
 			}
+			if f == "srt" || f == "vtt" || f == "ssa" {
+				// the same documents with CR LF and with CR line ends (documents past one read of the scanner)
+				for _, le := range []string{"\r\n", "\r"} {
+					d2 := bytes.ReplaceAll(data, []byte("\n"), []byte(le))
+					for _, rd := range readersFor(f) {
+						do("scaled."+f, ReadCase{rd, d2, fmt.Sprintf("%d cues, line ends %q", 1<<k, le)})
+					}
+				}
+			}
 		}
 	}
 	// option values: every page / PID option on every sample stream; SSA callbacks given
